@@ -7,3 +7,12 @@ CLAIMED["C17"] = dict(engine="E1", category="exploration", design_ref="DESIGN.md
     technique="bounded-exhaustive enumeration (all pairs/triples of an adversarial point set, every minute boundary) vs extended-precision vector reference and exact rational arithmetic",
     text="Every ordered pair and triple of a 40-point adversarial set (poles, RA wrap, separations 1e-9..180-1e-9 deg) and every minute boundary of the sexagesimal formats are executed on the real functions and compared with an independent longdouble vector model / exact Fractions; exhaustive within that lattice, no claim between lattice points.",
     note="Trusts numpy longdouble trigonometry and Python Fractions as reference; bearing tolerance follows the conditioning of the standard formula.")
+ENGINES[0]["serves_properties"] += ["C15", "C20"]
+CLAIMED["C20"] = dict(engine="E1", category="exploration", design_ref="DESIGN.md section 3, C20",
+    technique="bounded-exhaustive enumeration of every (rows, band count, band) triple on the real loader vs integer tiling and an independent zenithal WCS model",
+    text="Every (rows, n, i) with rows 1..120 (quick) / 1..400 plus six large sizes (thorough), n 1..64 and every band i is loaded with the real load_image_band from real FITS files; ranges must tile, values must equal the full image rows and the band header must map pixels to the same sky position under an independent WCS model; all input kinds on a 40-value slice; exhaustive within those bounds.",
+    note="Trusts astropy.io.fits to write/read the test files and the 40-line zenithal WCS reference; rotation-free headers only.")
+CLAIMED["C15"] = dict(engine="E1", category="exploration", design_ref="DESIGN.md section 3, C15",
+    technique="bounded-exhaustive enumeration of all small image shapes x factors x header/input/image kinds on the real compress/expand",
+    text="All shapes in [2..10]^2 (quick) / [2..20]^2 plus extras (thorough) x factors up to 64 x {CDELT,CD} x {file,HDUList} x three image kinds are compressed and expanded by the real code; shape, WCS keywords, BN_* removal, node exactness, range and complete-cell exactness are checked on every case; SR6 CLI and Aegean's aux loader on a slice.",
+    note="Trusts astropy.io.fits; node-linear test images are dyadic so float32 storage is exact.")
